@@ -294,7 +294,10 @@ def disarm(ctx, P, views, iters):
                 for arm, nm in [(sc.arm, "reset")] + [(t, "tie") for t in sc.ties]:
                     if _scans.arm_condition(sc, arm).get(("truth", v_ + ".is_blocked")) is not False:
                         okk = False
-            if not okk:
+            if not okk and not loops and not _scans.find_scans(fn) and not _scans.find_minfilters(fn):
+                # no scan of any recognised form in this method (it may feed a generic helper): undecided, not a missing filter
+                ctx.unrecognised("FILT: no scan recognised in %s.update_next_end_service_without_server" % view.name)
+            elif not okk:
                 ctx.violation(ob3, "R6.filter", "%s.update_next_end_service_without_server" % cls.name, "not ind.is_blocked filter", "blocked-not-filtered",
                               "at a node without server objects a blocked customer would be selected for end_service again", loc(fn))
     ctx.floor("guarded server dereference sites", total_sites, 4)
